@@ -81,6 +81,15 @@ func (i *Interpreter) SetScope(scope context.Scope) {
 }
 
 func (i *Interpreter) restart() error {
+	// Both the restart statement and return(restart) come here,
+	// if this restart exceeds Fastly restart count limit, raise an exception
+	if i.ctx.Restarts+1 > limitations.MaxVarnishRestarts {
+		return exception.Runtime(
+			nil,
+			"Max restart limit exceeded. Requests are limited to %d restarts",
+			limitations.MaxVarnishRestarts,
+		)
+	}
 	i.ctx.Restarts++
 	i.Debugger.Message(fmt.Sprintf("Restarted (%d) time", i.ctx.Restarts))
 	i.ctx.BackendRequest = nil
